@@ -66,7 +66,7 @@ def oracle(evs, flags, producers, per, workers, mode):
                 depth -= 1
         if flags.get("overlap") == "1":
             v.append("overlap flag set with a single worker")
-    if mode == 0 and len(hs) != producers * per:
+    if mode in (0, 2) and len(hs) != producers * per:
         v.append("dispatcher alive and idle-waited, but only %d of %d items were handled" % (len(hs), producers * per))
     if ("Y",) not in evs:
         v.append("destruction did not complete")
@@ -213,7 +213,7 @@ def run(tier):
     thorough = tier == "thorough"
     proof = proof_status(PROP, thorough)
     oc = Outcome(PROP)
-    oc.rule = ("real headers, ThreadSanitizer build: D scenarios = 1-4 producers x 0-12 items, 1-3 workers, destroy after idle (mode 0) or at a jittered moment (mode 1), seeded jitter in producers and handler; "
+    oc.rule = ("real headers, ThreadSanitizer build: D scenarios = 1-4 producers x 0-12 items, 1-3 workers, destroy after idle (mode 0), at a jittered moment (mode 1), or after idle with an empty pointer dispatched in between by every producer (mode 2), seeded jitter in producers and handler; "
                "Q scenarios = 1-4 consumers blocked in wait_and_pop then wake_up(); W scenarios = 2-6 consumers blocked, wake_up() with a push() landing right behind it: all released; oracle per execution: no item twice, per-producer order and no overlap (1 worker), everything handled when alive and idle-waited, "
                "destruction completes before the deadline, no handler activity afterwards, no ThreadSanitizer report; each log replayed as a label sequence on Model/Conc (same hand-off order, all workers exited, nothing lost); "
                "non-trivial = at least 2 items")
@@ -243,7 +243,7 @@ def run(tier):
             producers = r.choice([1, 1, 2, 3, 4])
             per = r.choice([0, 1, 2, 3, 5, 12])
             workers = r.choice([1, 1, 1, 2, 3])
-            mode = r.choice([0, 1, 1])
+            mode = r.choice([0, 1, 1, 2])
             scen.append(("D", producers, per, workers, r.randrange(1 << 30), mode))
         for k in range(n // 4):
             scen.append(("Q", r.choice([1, 2, 3, 4]), r.choice([0, 1, 3, 9]), r.randrange(1 << 30)))
